@@ -12,7 +12,7 @@ import sys
 
 HERE = os.path.dirname(os.path.abspath(__file__))
 VERIF = os.path.dirname(HERE)
-SCRATCH = "/tmp/egv-mut"
+SCRATCH = "/tmp/egv-mut-%d" % os.getpid()
 
 
 def sh(cmd, **kw):
